@@ -6,6 +6,7 @@
 // twice on one engine with that same context; and demands snapshot-before = snapshot-after-1 =
 // snapshot-after-2, equal output of the two renders, and (for filter pairs) that the value obtained
 // from the first filter looks the same before and after the second filter ran.
+// Family 6 (big.go) does the same with containers of more than 50 elements that the program only reads.
 package main
 
 import (
@@ -641,13 +642,15 @@ func main() {
 	vlib.Main(vlib.Spec{
 		ID:    "C18",
 		Level: "exploration",
-		Rule: "every program of five families — (1) each of the 31 built-in filters x 17 (thorough 38) argument shapes x 41 value expressions, printed and assigned-then-merged/sorted/reversed; " +
+		Rule: "every program of six families — (1) each of the 31 built-in filters x 17 (thorough 38) argument shapes x 41 value expressions, printed and assigned-then-merged/sorted/reversed; " +
 			"(2) every ordered pair of 15 x 14 (thorough 26 x 26) collection filters on each value expression, the intermediate value observed before and after the second filter; " +
 			"(3) 28 scope programs per value expression (set / loop variable / include with, only / macro parameter / import named like a caller's key, functions merge, max, min, cycle, slice window then merge); " +
 			"(4) name collisions: 27 programs per top-level key K of the context in which K is an import alias, from-import alias, imported macro name, set target, loop key/value variable, macro name, macro parameter, block name (also through extends) or include-with key, " +
 			"and 5 bindings (set, loop over [V], loop over V, include with, macro parameter) x 6 re-bindings (import as, from-import as, set, for, import twice, import in a loop) of a template name bound to each value expression V; " +
 			"(5) filter chains in one expression: every ordered pair of 38 (thorough 50) filter instances covering all 31 filters, printed (thorough: also assigned, as macro/function argument, as for-sequence), every ordered pair of the 14 collection instances in those other positions, " +
-			"and every ordered triple of 10 (thorough 14) collection instances (default, raw, slice, first, last, sort, reverse, merge, keys, join) in the positions print, set, argument, for-sequence and held (applied to a value obtained from a filter earlier, observed before and after) — " +
+			"and every ordered triple of 10 (thorough 14) collection instances (default, raw, slice, first, last, sort, reverse, merge, keys, join) in the positions print, set, argument, for-sequence and held (applied to a value obtained from a filter earlier, observed before and after); " +
+			"(6) BIG containers that are only read: 35 value expressions over 20 containers ([]string, []int, []float64, []int64, untyped lists of strings / ints / mixed, named slices, array, pointer to slice, four map types, nested map, struct, pointer to struct, list of maps, list of lists) of 51, 64 and 200 elements (thorough: also 50, 52, 65, 100, 300, and 51 / 200 in ascending and descending order), unsorted with duplicates and spare capacity, " +
+			"x (16 probes x in / not in x 4 positions; 3 probes x in / not in on the result of 11 filters, inline and held; 48 read programs: first, last, length, join, keys, for, index, comparisons, max, min, cycle, tests, slices, include, macro; all 38 (50) filter instances printed and held-then-tested; every ordered pair of 10 (14) collection filters printed, thorough also held) — " +
 			"rendered twice on a fresh engine with a fresh context of slices with sentinel-filled spare capacity, arrays, typed/untyped maps, structs, pointers nested two deep; " +
 			"non-trivial = the program renders without error (the filters really ran on the data)",
 		Assumptions: []string{
